@@ -390,7 +390,7 @@ package inference
 //@ func (*Engine).buildPkgInferenceMap
 //@ prop C05 C20
 //@ requires (and (engOK e) (=> (not (= e.controlledTriggersBySite nil)) (ctrlOK e)))
-//@ modifies (obj e) (map e.controlledTriggersBySite) (map (mapget e.controlledTriggersBySite (zero primitiveSite))) (map e.primitive.objPathCache) (obj e.inferredMap.mapping) (map e.inferredMap.mapping.inner) (elems e.inferredMap.mapping.Pairs) (obj (omPair e.inferredMap.mapping 0)) (obj (implOf e.inferredMap)) (map (. (implOf e.inferredMap) inner)) (elems (. (implOf e.inferredMap) Pairs)) (obj (omPair (implOf e.inferredMap) 0))
+//@ modifies (obj e) (map e.controlledTriggersBySite) (map (mapget e.controlledTriggersBySite (zero primitiveSite))) (map e.controlledTriggerOrder) (elems (mapget e.controlledTriggerOrder (zero primitiveSite))) (map e.primitive.objPathCache) (obj e.inferredMap.mapping) (map e.inferredMap.mapping.inner) (elems e.inferredMap.mapping.Pairs) (obj (omPair e.inferredMap.mapping 0)) (obj (implOf e.inferredMap)) (map (. (implOf e.inferredMap) inner)) (elems (. (implOf e.inferredMap) Pairs)) (obj (omPair (implOf e.inferredMap) 0))
 //@ ensures ok-after (and (engOK e) (= e.inferredMap (old e.inferredMap)) (= e.primitive (old e.primitive)) (ctrlOK e))
 //@ ensures earlier-registrations-are-kept (forall ((s primitiveSite) (t annotation.FullTrigger)) (=> (old (controls e s t)) (controls e s t)))
 //@ ensures every-controlled-trigger-is-registered (forall ((k Int)) (=> (and (<= 0 k) (< k (len triggers)) (isControlled (idx triggers k))) (controls e (ctrlSite e (idx triggers k)) (idx triggers k))))
